@@ -4,10 +4,13 @@ from __future__ import annotations
 
 from collections import OrderedDict, defaultdict, deque
 
+import sys
+
 import optree
 
 from mc import e1, gen
 from mc import universe as un
+from mc.e1 import outcome_of
 from mc.oracle import same_objects
 
 PROP = 'C02'
@@ -142,8 +145,59 @@ def check(ctx, tree, leaves0, dsl, cfg):  # noqa: C901, PLR0912
             ctx.violation('predicate-law', _key('predicate-law', dsl), case, f'{again!r} vs {plain!r}')
 
 
+def builtin_instances_sweep(ctx):
+    """Instances of the interpreter's own struct-sequence / namedtuple types that user code cannot construct with chosen
+    leaves (sys.version_info, sys.flags, os.stat_result, time.struct_time, ...): each is a node visited by position, its
+    children are the items of the tuple, through every traversal, alone and nested."""
+    import os  # noqa: PLC0415
+    import time  # noqa: PLC0415
+
+    objs = {
+        'sys.version_info': sys.version_info, 'sys.flags': sys.flags, 'sys.float_info': sys.float_info,
+        'sys.int_info': sys.int_info, 'sys.hash_info': sys.hash_info, 'sys.thread_info': sys.thread_info,
+        'sys.implementation.version': sys.implementation.version, 'time.gmtime': time.gmtime(0),
+        'os.stat_result': os.stat('/'), 'os.times': os.times(), 'os.terminal_size': os.terminal_size((3, 4)),
+        'os.uname': os.uname(), 'time.get_clock_info': None,
+    }
+    for name, obj in objs.items():
+        if obj is None:
+            continue
+        for nil in (False, True):
+            for ns in ('', 'ns'):
+                ctx.count()
+                ctx.cls(('builtin-instance', name, nil, ns))
+                kw = {'none_is_leaf': nil, 'namespace': ns}
+                want = list(obj)
+                if not nil:
+                    want = [x for x in want if x is not None]
+                is_ss = optree.is_structseq(obj)
+                is_nt = optree.is_namedtuple(obj)
+                for label, tree, expect in (('alone', obj, want), ('nested', [obj, {'k': obj}], want + want)):
+                    views = {
+                        'tree_leaves': lambda tree=tree: optree.tree_leaves(tree, **kw),
+                        'tree_flatten': lambda tree=tree: optree.tree_flatten(tree, **kw)[0],
+                        'tree_iter': lambda tree=tree: list(optree.tree_iter(tree, **kw)),
+                        'tree_flatten_with_path': lambda tree=tree: optree.tree_flatten_with_path(tree, **kw)[1],
+                        'tree_flatten_with_accessor': lambda tree=tree: optree.tree_flatten_with_accessor(tree, **kw)[1],
+                    }
+                    for vname, fn in views.items():
+                        got = outcome_of(fn)
+                        if got[0] != 'ok' or len(got[1]) != len(expect) or any(a is not b for a, b in zip(got[1], expect)):
+                            ctx.violation('builtin-instance', f'{PROP}:builtin-structseq-instance-not-a-node',
+                                          {'builtin_instance': name, 'nil': nil, 'ns': ns, 'where': label},
+                                          f'{vname}({label} {name}): {got!r}, items {expect!r} (is_structseq={is_ss}, is_namedtuple={is_nt})'[:500])
+                kind = optree.tree_structure(obj, **kw).kind.name
+                if kind not in ('STRUCTSEQUENCE', 'NAMEDTUPLE') or optree.tree_is_leaf(obj, **kw):
+                    ctx.violation('builtin-instance', f'{PROP}:builtin-structseq-instance-not-a-node',
+                                  {'builtin_instance': name, 'nil': nil, 'ns': ns}, f'kind {kind}')
+                ctx.outcome(f'builtin-instance:{kind}')
+
+
 def run_shard(ctx):
     from mc.props.C12 import type_sweep  # noqa: PLC0415
+
+    if ctx.shard == 0:
+        builtin_instances_sweep(ctx)
 
     type_sweep(ctx, PROP)  # exact-type rule for ordinary builtin leaf types registered as custom nodes
     extra = (('aliasing', tuple(gen.aliasing_trees())), *((e1.core6_stratum(),) if ctx.tier == 'thorough' else ()))
@@ -151,4 +205,11 @@ def run_shard(ctx):
 
 
 def replay(case, ctx):
+    c = case['case']
+    if 'builtin_instance' in c:
+        return builtin_instances_sweep(ctx)
+    if 'tree' not in c:
+        from mc.props.C12 import type_sweep  # noqa: PLC0415
+
+        return type_sweep(ctx, PROP)
     e1.replay_case(case['case'], lambda tree, leaves, dsl, cfg: check(ctx, tree, leaves, dsl, cfg))
